@@ -4,8 +4,49 @@ SPEC = dict(
     lean_props="SymVerif.Props.C38",
     driver="C38",
     harness="c38.cpp",
-    theorems=[],
-    rule="",
-    not_covered=[],
-    assumptions=[],
+    theorems=[
+        "SymVerif.C38.fdiff_exact",
+        "SymVerif.C38.fdiff_inbounds",
+        "SymVerif.C38.fdiff_inbounds_all",
+        "SymVerif.C38.fdiff_row0_sum_one",
+        "SymVerif.C38.fdiff_empty",
+        "SymVerif.C38.iterate_derivative_linear_mul",
+        "SymVerif.C38.dv_old_succ",
+        "SymVerif.C38.dv_new_succ",
+        "SymVerif.C38.jLoop_spec",
+    ],
+    rule="calls generate_fdiff_weights_vector(grid, max_deriv, around) with rational grids; distinct = distinct "
+         "(grid, centre, order) lines; non-trivial = every line; tags: stencil-central / stencil-onesided "
+         "(equispaced integer grids, every order 0..size), rand-n<size> (random distinct rationals, size 1..7 "
+         "(thorough 1..9), every order 0..size, centre on a node in 1/3 of the cases), order-beyond-size, "
+         "dup (repeated grid points: result must be non-finite)",
+    not_covered=[
+        "symbolic grid points / symbolic centre (the C++ then builds unexpanded Basic trees; their value leans on "
+        "C07, add/mul/div of symbols)",
+        "floating-point (RealDouble) grids: rounding",
+        "len_g*(max_deriv+1) >= 2^32 (unsigned wrap-around of len_w)",
+        "the empty grid (grid[0] and weights[0] are out of range in the C++: precondition; the model returns "
+        "Err.oob, the harness never calls the library with it)",
+        "the arithmetic of symengine's Integer/Rational itself is covered only by the correspondence and the "
+        "GMP oracle, not by a theorem (belongs to C05/C07)",
+    ],
+    assumptions=[
+        "sub/mul/div of symengine Integer/Rational values are exact field operations on canonical rationals "
+        "(checked on every generated case by the correspondence with core Lean Rat and by the GMP oracle)",
+    ],
+    level_text="Machine-checked proof (Lean 4 kernel, Mathlib polynomials and Lagrange interpolation) that the "
+               "loop nest of generate_fdiff_weights_vector, modelled statement by statement over exact rationals "
+               "with bounds-checked flat indexing j + k*len_g, returns for every non-empty grid of distinct "
+               "rationals, every centre and every max_deriv a weight vector whose order-k row applied to the "
+               "values of any polynomial of degree < len gives exactly its k-th derivative at the centre; no "
+               "index leaves the vectors and no division by zero occurs.",
+    level_note="Full statement proved for rational inputs (theorem fdiff_exact, no partial theorems). The tie to "
+               "the C++ is the line-by-line correspondence of the exact weight vectors on generated grids plus "
+               "an independent GMP oracle that evaluates the property on monomials on the real output. Symbolic "
+               "and floating-point grids are outside the model.",
+    technique="Lean 4 executable model (core Rat, Array with checked indices) + loop-invariant proof: after stage "
+              "i, w[j + k*len] is the k-th derivative at the centre of the Lagrange basis polynomial L_{i,j} on "
+              "nodes 0..i (Fornberg recurrences = Leibniz rule for a linear factor); final step by "
+              "Lagrange.eq_interpolate. Correspondence harness with exact rational output; GMP mpq oracle.",
+    partial=[],
 )
